@@ -18,13 +18,21 @@ def LazyAct.ents : LazyAct → List Entity
   | .rem _ _ e => [e]
   | .exec _ _ => []
 
-structure WInv (w : World) : Prop where
+/-- `X` exempts indices from the ownership clause: after an entity purge that was interrupted by a
+    panicking destructor (C19) components of dead entities may remain; `X = fun _ => False` is the
+    invariant of fault-free histories. -/
+structure WInvX (X : Nat → Prop) (w : World) : Prop where
   ent : ∃ s, WR w.ent s
   size : w.stores.size = numKinds
   good : ∀ k ms, w.store? k = some ms → ms.Good
-  owned : ∀ k ms, w.store? k = some ms → ∀ i, ms.mask.mem i = true → w.ent.alloc.occ i = true
+  owned : ∀ k ms, w.store? k = some ms → ∀ i, ms.mask.mem i = true → w.ent.alloc.occ i = true ∨ X i
   inTable : ∀ k ms, w.store? k = some ms → k ∈ w.table
   queueOk : ∀ act, act ∈ w.queue → ∀ e, e ∈ act.ents → e ∈ w.ent.log.toList
+
+/-- The invariant of fault-free histories. -/
+abbrev WInv (w : World) : Prop := WInvX (fun _ => False) w
+
+variable {X : Nat → Prop}
 
 namespace World
 
@@ -46,7 +54,7 @@ theorem lt_size_of_store? {w : World} {k : Nat} {m : Masked} (h : w.store? k = s
   · exact hlt
   · simp [store?, Array.getElem?_eq_none (Nat.le_of_not_lt hlt)] at h
 
-theorem inv_init : WInv ({} : World) := by
+theorem inv_init : WInvX X ({} : World) := by
   refine ⟨⟨_, WR_init⟩, by simp [numKinds], ?_, ?_, ?_, by simp⟩
   all_goals
     intro k ms h
@@ -62,10 +70,10 @@ theorem alive_occ {w : World} {s : EntSpec} (h : WR w.ent s) {e : Entity}
   (h.r.occ_of_live e ((h.r.liveIff e).mpr ⟨h.logSeen e he, hal⟩)).1
 
 /-- Replacing one storage by a good one whose new members sit at occupied indices. -/
-theorem inv_setStore {w : World} (h : WInv w) {k : Nat} {ms ms' : Masked}
+theorem inv_setStore {w : World} (h : WInvX X w) {k : Nat} {ms ms' : Masked}
     (hk : w.store? k = some ms) (hg : ms'.Good)
     (hm : ∀ i, ms'.mask.mem i = true → ms.mask.mem i = true ∨ w.ent.alloc.occ i = true)
-    (d : List Int) : WInv ((w.setStore k ms').destroy d) := by
+    (d : List Int) : WInvX X ((w.setStore k ms').destroy d) := by
   have hlt := lt_size_of_store? hk
   have hs : ∀ k', ((w.setStore k ms').destroy d).store? k' = if k' = k then some ms' else w.store? k' := by
     intro k'
@@ -84,7 +92,7 @@ theorem inv_setStore {w : World} (h : WInv w) {k : Nat} {ms ms' : Masked}
     · cases hk'
       rcases hm i hi with h1 | h1
       · exact h.owned k ms hk i h1
-      · exact h1
+      · exact Or.inl h1
     · exact h.owned k' m' hk' i hi
   · intro k' m' hk'
     rw [hs] at hk'
@@ -93,22 +101,22 @@ theorem inv_setStore {w : World} (h : WInv w) {k : Nat} {ms ms' : Masked}
     · exact h.inTable k' m' hk'
 
 /-- `applyS` with a result that keeps the storage good and only adds members at occupied indices. -/
-theorem inv_applyS {α} {w : World} (h : WInv w) {k : Nat} {ms : Masked} (hk : w.store? k = some ms)
+theorem inv_applyS {α} {w : World} (h : WInvX X w) {k : Nat} {ms : Masked} (hk : w.store? k = some ms)
     {o : Out (SRes α)} {r : SRes α} (ho : o = .ok r) (hg : r.st.Good)
     (hm : ∀ i, r.st.mask.mem i = true → ms.mask.mem i = true ∨ w.ent.alloc.occ i = true)
-    (f : α → WRes) : WInv (w.applyS k o f).1 := by
+    (f : α → WRes) : WInvX X (w.applyS k o f).1 := by
   subst ho
   exact inv_setStore h hk hg hm _
 
 
 /-- A storage operation through a logged handle: good result, new members only at the handle's
     index and only if the handle is alive. -/
-theorem inv_applyS_handle {α} {w : World} (h : WInv w) {k hd : Nat} {ms : Masked} {e : Entity}
+theorem inv_applyS_handle {α} {w : World} (h : WInvX X w) {k hd : Nat} {ms : Masked} {e : Entity}
     (hk : w.store? k = some ms) (hr : resolve w.ent.log hd = some e) (o : Out (SRes α))
     (hgood : ∃ r, o = .ok r ∧ r.st.Good)
     (hmask : ∀ r, o = .ok r → ∀ j, r.st.mask.mem j = true →
       ms.mask.mem j = true ∨ (j = e.id ∧ w.ent.alloc.isAlive e = true))
-    (f : α → WRes) : WInv (w.applyS k o f).1 := by
+    (f : α → WRes) : WInvX X (w.applyS k o f).1 := by
   obtain ⟨r, ho, hg⟩ := hgood
   obtain ⟨s, hs⟩ := h.ent
   refine inv_applyS h hk ho hg ?_ f
@@ -117,8 +125,8 @@ theorem inv_applyS_handle {α} {w : World} (h : WInv w) {k hd : Nat} {ms : Maske
   · exact Or.inl h1
   · exact Or.inr (alive_occ hs (resolve_mem hr) hal)
 
-theorem inv_enqueue {w : World} (h : WInv w) (mk : Nat → LazyAct)
-    (hents : ∀ t e, e ∈ (mk t).ents → e ∈ w.ent.log.toList) : WInv (w.enqueue mk).1 := by
+theorem inv_enqueue {w : World} (h : WInvX X w) (mk : Nat → LazyAct)
+    (hents : ∀ t e, e ∈ (mk t).ents → e ∈ w.ent.log.toList) : WInvX X (w.enqueue mk).1 := by
   refine ⟨h.ent, h.size, h.good, h.owned, h.inTable, ?_⟩
   intro act hact e he
   simp only [enqueue, List.mem_append, List.mem_singleton] at hact
@@ -132,12 +140,12 @@ theorem resolveAll_zip_mem {log : Array Entity} {ks : List Nat} {es : List Entit
   obtain ⟨p, hp, rfl⟩ := List.mem_map.mp he
   exact resolveAll_mem h _ (List.of_mem_zip hp).1
 
-theorem inv_register {w : World} (h : WInv w) (k : Nat) : WInv (w.register k) := by
+theorem inv_register {w : World} (h : WInvX X w) (k : Nat) : WInvX X (w.register k) := by
   unfold register
   split
   · next hk =>
-    have key : ∀ w' : World, WInv w' → (∀ m, w'.store? k = some m → True) →
-        WInv (if w'.table.contains k then w' else { w' with table := w'.table ++ [k] }) := by
+    have key : ∀ w' : World, WInvX X w' → (∀ m, w'.store? k = some m → True) →
+        WInvX X (if w'.table.contains k then w' else { w' with table := w'.table ++ [k] }) := by
       intro w' h' _
       split
       · exact h'
@@ -222,10 +230,10 @@ theorem deleteComponents_good (es : List Entity) : ∀ (ks : List Nat) (w : Worl
 
 /-- After a deletion has taken effect in the allocator (`a'`: the purged indices are no longer
     occupied, nothing else changed), purging those entities re-establishes the invariant. -/
-theorem inv_purge {w : World} (h : WInv w) {a' : Alloc} {s' : EntSpec} (es : List Entity)
+theorem inv_purge {w : World} (h : WInvX X w) {a' : Alloc} {s' : EntSpec} (es : List Entity)
     (hW : WR { w.ent with alloc := a' } s')
     (hocc : ∀ j, a'.occ j = (w.ent.alloc.occ j && !(es.map (·.id)).contains j)) :
-    ∃ w', ({ w with ent := { w.ent with alloc := a' } } : World).deleteComponents es w.table = .ok w' ∧ WInv w' := by
+    ∃ w', ({ w with ent := { w.ent with alloc := a' } } : World).deleteComponents es w.table = .ok w' ∧ WInvX X w' := by
   obtain ⟨w', hdel, hgood, hsize⟩ :=
     deleteComponents_good es w.table { w with ent := { w.ent with alloc := a' } } h.good
   have hfr := LazyQ.deleteComponents_frame es _ _ _ hdel
@@ -271,13 +279,16 @@ theorem inv_purge {w : World} (h : WInv w) {a' : Alloc} {s' : EntSpec} (es : Lis
   refine ⟨⟨s', by rw [hfr.ent]; exact hW⟩, by rw [hsize]; exact h.size, hgood, ?_, ?_, ?_⟩
   · intro k ms' hk' i hi
     obtain ⟨ms, hk, hsub, hclr⟩ := hback k ms' hk'
-    rw [hfr.ent]; simp only
-    rw [hocc i, h.owned k ms hk i (hsub i hi)]
-    simp only [Bool.true_and, Bool.not_eq_true', List.contains_eq_mem, decide_eq_false_iff_not,
-      List.mem_map, not_exists, not_and]
-    intro e he heq
-    have := hclr e he
-    rw [heq] at this; rw [this] at hi; cases hi
+    rcases h.owned k ms hk i (hsub i hi) with ho | hx
+    · left
+      rw [hfr.ent]; simp only
+      rw [hocc i, ho]
+      simp only [Bool.true_and, Bool.not_eq_true', List.contains_eq_mem, decide_eq_false_iff_not,
+        List.mem_map, not_exists, not_and]
+      intro e he heq
+      have := hclr e he
+      rw [heq] at this; rw [this] at hi; cases hi
+    · exact Or.inr hx
   · intro k ms' hk'
     obtain ⟨ms, hk, _, _⟩ := hback k ms' hk'
     rw [hfr.table]; exact h.inTable k ms hk
@@ -429,15 +440,15 @@ theorem occ_mono {ew ew' : EWorld} {s s' : EntSpec} (h : WR ew s) (h' : WR ew' s
   exact (h'.r.occ_of_live _ this).1
 
 /-- Replacing the entity world by a later one in which nothing died and the log only grew. -/
-theorem inv_ent {w : World} (h : WInv w) {ew' : EWorld} {s s' : EntSpec} (hs : WR w.ent s) (hs' : WR ew' s')
+theorem inv_ent {w : World} (h : WInvX X w) {ew' : EWorld} {s s' : EntSpec} (hs : WR w.ent s) (hs' : WR ew' s')
     (hl : ∀ x, x ∈ s.live → x ∈ s'.live) (hlog : ∀ e, e ∈ w.ent.log.toList → e ∈ ew'.log.toList) :
-    WInv { w with ent := ew' } :=
+    WInvX X { w with ent := ew' } :=
   ⟨⟨s', hs'⟩, h.size, h.good,
-    fun k ms hk i hi => occ_mono hs hs' hl i (h.owned k ms hk i hi),
+    fun k ms hk i hi => (h.owned k ms hk i hi).imp (occ_mono hs hs' hl i) id,
     h.inTable, fun act ha e he => hlog e (h.queueOk act ha e he)⟩
 
-theorem inv_estep {w : World} (h : WInv w) (op : EOp) (hp : op.plain = true) :
-    WInv { w with ent := (w.ent.step op).1 } := by
+theorem inv_estep {w : World} (h : WInvX X w) (op : EOp) (hp : op.plain = true) :
+    WInvX X { w with ent := (w.ent.step op).1 } := by
   obtain ⟨s, hs⟩ := h.ent
   obtain ⟨_, s', hrun, hlog, hW⟩ := step_accept hs op
   obtain ⟨hnd, hmono⟩ := entEvents_plain w.ent.log op (w.ent.step op).2 hp
@@ -454,9 +465,9 @@ theorem kill_seen {s s' : EntSpec} {es : List Entity} {r : KillRes}
   · cases h
 
 /-- `World::delete_entities` on logged handles. -/
-theorem inv_deleteEntities {w : World} (h : WInv w) (es : List Entity)
+theorem inv_deleteEntities {w : World} (h : WInvX X w) (es : List Entity)
     (hes : ∀ s, WR w.ent s → ∀ e, e ∈ es → e ∈ s.seen) :
-    WInv (w.deleteEntities es).1 ∧ ∃ r, (w.deleteEntities es).2 = .e (.kill r) := by
+    WInvX X (w.deleteEntities es).1 ∧ ∃ r, (w.deleteEntities es).2 = .e (.kill r) := by
   obtain ⟨s, hs⟩ := h.ent
   have hseen : ∀ e, e ∈ es → e ∈ s.seen := hes s hs
   obtain ⟨a', r, s', hk, hstep, hR⟩ := kill_refine hs.r es hseen
@@ -476,9 +487,9 @@ theorem inv_deleteEntities {w : World} (h : WInv w) (es : List Entity)
 /-! ### Builders -/
 
 /-- `buildComps` inserts at the index of the (alive, logged) entity `e` only. -/
-theorem inv_buildComps : ∀ (comps : List (Nat × Int)) (w : World) (e : Entity), WInv w →
+theorem inv_buildComps : ∀ (comps : List (Nat × Int)) (w : World) (e : Entity), WInvX X w →
     e ∈ w.ent.log.toList → (∀ kv, kv ∈ comps → (w.store? kv.1).isSome = true) →
-    (∃ w', w.buildComps e comps = .ok w' ∧ WInv w' ∧ w'.ent = w.ent) ∨
+    (∃ w', w.buildComps e comps = .ok w' ∧ WInvX X w' ∧ w'.ent = w.ent) ∨
     (∃ why, w.buildComps e comps = .panic why) := by
   intro comps
   induction comps with
@@ -494,9 +505,10 @@ theorem inv_buildComps : ∀ (comps : List (Nat × Int)) (w : World) (e : Entity
       simp only
       obtain ⟨r, hr, hg⟩ := Masked.good_insert (h.good k m hst) w.ent.alloc e v
       rw [hr]; simp only
-      have hinv1 : WInv ((w.setStore k r.st).destroy r.destroyed) := by
+      have hinv1 : ∀ d, WInvX X ((w.setStore k r.st).destroy d) := by
+        intro d
         obtain ⟨s, hs⟩ := h.ent
-        refine inv_setStore h hst hg ?_ _
+        refine inv_setStore h hst hg ?_ d
         intro i hi
         rw [Masked.insert_mask hr i] at hi
         split at hi
@@ -507,7 +519,7 @@ theorem inv_buildComps : ∀ (comps : List (Nat × Int)) (w : World) (e : Entity
       | inserted =>
         simp only
         have hlt := lt_size_of_store? hst
-        rcases ih _ e hinv1 he (by
+        rcases ih _ e (hinv1 _) he (by
           intro kv' hkv'
           have := hreg kv' (by simp [hkv'])
           rw [store?_destroy, store?_setStore]
@@ -518,7 +530,7 @@ theorem inv_buildComps : ∀ (comps : List (Nat × Int)) (w : World) (e : Entity
         · exact Or.inr ⟨why, h1⟩
       | replaced old =>
         simp only
-        rcases ih _ e hinv1 he (by
+        rcases ih _ e (hinv1 _) he (by
           intro kv' hkv'
           have := hreg kv' (by simp [hkv'])
           rw [store?_destroy, store?_setStore]
@@ -529,16 +541,16 @@ theorem inv_buildComps : ∀ (comps : List (Nat × Int)) (w : World) (e : Entity
         · exact Or.inr ⟨why, h1⟩
 
 
-theorem inv_killAtomic {w : World} (h : WInv w) (e : Entity) (he : e ∈ w.ent.log.toList) :
-    ∃ a ok, w.ent.alloc.killAtomic e = .ok (a, ok) ∧ WInv { w with ent := { w.ent with alloc := a } } := by
+theorem inv_killAtomic {w : World} (h : WInvX X w) (e : Entity) (he : e ∈ w.ent.log.toList) :
+    ∃ a ok, w.ent.alloc.killAtomic e = .ok (a, ok) ∧ WInvX X { w with ent := { w.ent with alloc := a } } := by
   obtain ⟨s, hs⟩ := h.ent
   obtain ⟨a', ok, s', hk, hstep, hR, _, hseen⟩ := killAtomic_refine hs.r e (hs.logSeen e he)
   refine ⟨a', ok, hk, ?_⟩
   have hW : WR { w.ent with alloc := a' } s' := ⟨hR, by intro x hx; rw [hseen]; exact hs.logSeen x hx⟩
   exact inv_ent h hs hW (EntSpec.step_nonDel_live rfl hstep) (fun x hx => hx)
 
-theorem inv_createWith {w : World} (h : WInv w) (atomic dropped : Bool) (comps : List (Nat × Int)) :
-    WInv (w.createWith atomic dropped comps).1 := by
+theorem inv_createWith {w : World} (h : WInvX X w) (atomic dropped : Bool) (comps : List (Nat × Int)) :
+    WInvX X (w.createWith atomic dropped comps).1 := by
   unfold createWith
   split
   · exact h
@@ -553,7 +565,7 @@ theorem inv_createWith {w : World} (h : WInv w) (atomic dropped : Bool) (comps :
         exact ⟨kv, hkv, by simp [hx]⟩
     obtain ⟨s, hs⟩ := h.ent
     obtain ⟨e, s', hres, hrun, hlog, hW⟩ := create_accept hs atomic false
-    have hstepinv : WInv { w with ent := (if atomic = true then w.ent.createAtomic false else w.ent.createNow false).1 } := by
+    have hstepinv : WInvX X { w with ent := (if atomic = true then w.ent.createAtomic false else w.ent.createNow false).1 } := by
       refine inv_ent h hs hW ?_ (by rw [hlog]; intro x hx; simp only [Array.toList_push, List.mem_append]; exact Or.inl hx)
       apply EntSpec.run_nonDel_live _ s s' _ hrun
       intro ev hev; simp at hev; subst hev; rfl
@@ -577,8 +589,8 @@ theorem inv_createWith {w : World} (h : WInv w) (atomic dropped : Bool) (comps :
         | false => exact hinv2
     · rw [hb]; exact hstepinv
 
-theorem inv_lazyCreate {w : World} (h : WInv w) (comps : List (Nat × Int)) :
-    WInv (step 0 w (.lazyCreate comps)).1 ∧ ∀ f, step f w (.lazyCreate comps) = step 0 w (.lazyCreate comps) := by
+theorem inv_lazyCreate {w : World} (h : WInvX X w) (comps : List (Nat × Int)) :
+    WInvX X (step 0 w (.lazyCreate comps)).1 ∧ ∀ f, step f w (.lazyCreate comps) = step 0 w (.lazyCreate comps) := by
   refine ⟨?_, fun f => by cases f <;> rfl⟩
   simp only [step]
   split
@@ -586,7 +598,7 @@ theorem inv_lazyCreate {w : World} (h : WInv w) (comps : List (Nat × Int)) :
   · obtain ⟨s, hs⟩ := h.ent
     obtain ⟨e, s', hres, hrun, hlog, hW⟩ := create_accept hs true false
     simp only [if_true] at hres hlog hW hrun
-    have hinv1 : WInv { w with ent := (w.ent.createAtomic false).1 } := by
+    have hinv1 : WInvX X { w with ent := (w.ent.createAtomic false).1 } := by
       refine inv_ent h hs hW ?_ (by rw [hlog]; intro x hx; simp only [Array.toList_push, List.mem_append]; exact Or.inl hx)
       apply EntSpec.run_nonDel_live _ s s' _ hrun
       intro ev hev; simp at hev; subst hev; rfl
@@ -596,8 +608,8 @@ theorem inv_lazyCreate {w : World} (h : WInv w) (comps : List (Nat × Int)) :
     subst hres
     simp only
     -- the fold only appends `.ins _ _ e _` actions
-    have key : ∀ (cs : List (Nat × Int)) (w1 : World), WInv w1 → e ∈ w1.ent.log.toList →
-        WInv (cs.foldl (fun (w : World) (kv : Nat × Int) =>
+    have key : ∀ (cs : List (Nat × Int)) (w1 : World), WInvX X w1 → e ∈ w1.ent.log.toList →
+        WInvX X (cs.foldl (fun (w : World) (kv : Nat × Int) =>
           { w with queue := w.queue ++ [.ins w.nextTag kv.1 e kv.2], nextTag := w.nextTag + 1 }) w1) := by
       intro cs
       induction cs with
@@ -646,9 +658,9 @@ theorem rjoin_access_good {m : Masked} (hg : m.Good) {id : Nat} (hmem : m.mask.m
   | ub w => simp [hget, Masked.lift] at hr
 
 theorem inv_rjoinLoop (k : Nat) (mutable : Bool) : ∀ (ids : List Nat) (w : World) (acts : List RAct)
-    (acc : List (Nat × ItemRes)), WInv w →
+    (acc : List (Nat × ItemRes)), WInvX X w →
     (∀ m, w.store? k = some m → ∀ id, id ∈ ids → m.mask.mem id = true) →
-    WInv (rjoinLoop w k mutable ids acts acc).1 := by
+    WInvX X (rjoinLoop w k mutable ids acts acc).1 := by
   intro ids
   induction ids with
   | nil => intro w acts acc h _; exact h
@@ -665,7 +677,7 @@ theorem inv_rjoinLoop (k : Nat) (mutable : Bool) : ∀ (ids : List Nat) (w : Wor
       have hlt := lt_size_of_store? hst
       -- replacing the storage by one with the same mask keeps the side condition
       have hkeep : ∀ (m2 : Masked), m2.mask = m.mask → m2.Good →
-          WInv (w.setStore k m2) ∧ (∀ m', (w.setStore k m2).store? k = some m' → ∀ id', id' ∈ ids → m'.mask.mem id' = true) := by
+          WInvX X (w.setStore k m2) ∧ (∀ m', (w.setStore k m2).store? k = some m' → ∀ id', id' ∈ ids → m'.mask.mem id' = true) := by
         intro m2 hmask hg2
         refine ⟨by simpa [destroy] using inv_setStore h hst hg2 (fun i hi => Or.inl (hmask ▸ hi)) [], ?_⟩
         intro m' hm' id' hid'
@@ -727,7 +739,7 @@ theorem inv_rjoinLoop (k : Nat) (mutable : Bool) : ∀ (ids : List Nat) (w : Wor
 
 /-! ### Teardown -/
 
-theorem inv_dropWorld {w : World} (h : WInv w) (fuel : Nat) : WInv (step fuel w .dropWorld).1 := by
+theorem inv_dropWorld {w : World} (h : WInvX X w) (fuel : Nat) : WInvX X (step fuel w .dropWorld).1 := by
   simp only [step]
   cases w.dropStores w.table [] with
   | ok d =>
